@@ -9,7 +9,7 @@ from ..terms import A, C, F, V, call, conj, TRUE, CUT, show_program, show_term
 
 ID = 'C08'
 LEVEL = 'model_checking'
-RULE = ('every history of depth <= D over 17 events: register_function for p with inferred / explicit (p/2) / variadic '
+RULE = ('every history of depth <= D over 20 events (17 + start / step / close of a call p(X) that stays suspended across the other events and must keep the resolution it had when it was made), from the empty engine (depth D) and from 3 non-initial states - combined definitions, a Python predicate plus a script, facts between two loads - (depth D-1): register_function for p with inferred / explicit (p/2) / variadic '
         'arity and for q/1; load of script S1 (p/1 facts), S2 (p/1 with a cut in its first clause), S3 (p/2 and q(X) :- '
         'p(X)), S6 (names that collide with context keys: once_1/0, once_1/1, p_n/1, call_n/0, foo_1/0 next to foo/1) each '
         'with overwrite on and off; load of a text that is not Python (S4) and of a text that defines p_1 and q_1 and then '
@@ -41,7 +41,11 @@ EVENTS = [('reg', 'p', 1, None), ('reg', 'p', 2, 2), ('reg', 'p', 'n', -1), ('re
           ('load', 'S1', True), ('load', 'S1', False), ('load', 'S2', True), ('load', 'S2', False),
           ('load', 'S3', True), ('load', 'S3', False), ('load', 'S6', True), ('load', 'S6', False),
           ('badload', 'S4'), ('badload', 'S5'),
-          ('assert', F('p', A('x'))), ('assert', F('p', A('x'), A('y'))), ('clear',)]
+          ('assert', F('p', A('x'))), ('assert', F('p', A('x'), A('y'))), ('clear',),
+          # a call p(X) that stays suspended while later events happen (it was resolved when made)
+          ('start',), ('step',), ('close',), ('drain',)]
+# histories also start from non-initial states (event prefixes executed first)
+PREFIXES = [(), (5, 7), (0, 5), (4, 14, 5)]   # nothing | S1+S2 combined | python p/1 + S1 | S1, fact p(x), S1 again
 QUERIES = [('p', 0), ('p', 1), ('p', 2), ('p', 3), ('q', 1), ('once_1', 0), ('once_1', 1), ('p_n', 1), ('call_n', 0),
            ('foo', 1), ('foo_1', 0)]
 API_NAMES = ['query', 'atom', 'variable', 'unify', 'functor', 'makelist', 'listpair', 'match_dynamic', 'ATOM_NIL',
@@ -49,6 +53,9 @@ API_NAMES = ['query', 'atom', 'variable', 'unify', 'functor', 'makelist', 'listp
 
 
 def event_name(ev):
+    if ev[0] in ('start', 'step', 'close', 'drain'):
+        return {'start': 'start a call p(X) and take its first answer', 'step': 'next answer of the suspended call', 'close': 'close the suspended call',
+                'drain': 'take all remaining answers of the suspended call'}[ev[0]]
     if ev[0] == 'reg':
         return 'register_function(%r, f%s%s)' % (ev[1], ev[2], '' if ev[3] is None else ', arity=%d' % ev[3])
     if ev[0] == 'load':
@@ -178,10 +185,62 @@ def run_history(hist, texts):
     states = []
     steps = 0
     prev = None
+    slot = None      # (impl generator, impl variable, ref generator, ref variable)
     for n, ei in enumerate(hist):
         ev = EVENTS[ei]
+        if ev[0] == 'start' and slot is not None:
+            return ('disabled',)
+        if ev[0] in ('step', 'close', 'drain') and slot is None:
+            return ('disabled',)
         trace.append(event_name(ev))
         label = 'history: %s\n' % ' ; '.join(trace)
+        if ev[0] in ('start', 'step', 'close', 'drain'):
+            try:
+                with watchdog(60):
+                    if ev[0] == 'drain':
+                        got, exp = [], []
+                        for _ in slot[0]:
+                            got.append(impl.observe([slot[1]]))
+                            if len(got) > 40:
+                                break
+                        for e in slot[2]:
+                            exp.append(canon([slot[3]], e))
+                        slot = None
+                        steps += 1
+                        if got != exp:
+                            return ('violation', 'suspended-call:answers-differ', label + 'event %d: the remaining answers of the suspended call p(X) are %r; resolved when it was made they are %r' % (n + 1, got, exp))
+                        continue
+                    if ev[0] == 'start':
+                        iv = yp.variable()
+                        rv = ref.fresh()
+                        slot = (yp.query('p', [iv]), iv, ref.iter_env(('f', 'p', (rv,))), rv)
+                    if ev[0] == 'close':
+                        slot[0].close()
+                        slot[2].close()
+                        slot = None
+                        got = exp = 'closed'
+                    else:
+                        try:
+                            next(slot[0])
+                            got = impl.observe([slot[1]])
+                        except StopIteration:
+                            got = 'exhausted'
+                        try:
+                            e = next(slot[2])
+                            exp = canon([slot[3]], e)
+                        except StopIteration:
+                            exp = 'exhausted'
+                        if got == 'exhausted' or exp == 'exhausted':
+                            if got == exp:
+                                slot = None
+            except Hang as e:
+                return ('violation', 'hang', label + str(e))
+            except Exception as e:  # noqa: BLE001
+                return ('violation', 'suspended-call:raises:%s' % impl.exc_sig(e), label + 'event %d raised %r' % (n + 1, e))
+            steps += 1
+            if got != exp:
+                return ('violation', 'suspended-call:answers-differ', label + 'event %d: the suspended call p(X) gives %r; resolved when it was made it gives %r' % (n + 1, got, exp))
+            continue
         exp = do_ref(ref, ev)
         try:
             with watchdog(60):
@@ -221,11 +280,15 @@ def compile_scripts():
 def plan(tier):
     d = 4 if tier == 'quick' else 5
     n = 64 if tier == 'quick' else 512
-    return [(d, k, n) for k in range(n)]
+    sh = [(d, k, n, 0) for k in range(n)]
+    for pi in range(1, len(PREFIXES)):
+        sh += [(d - 1, k, n // 4, pi) for k in range(n // 4)]
+    return sh
 
 
 def run_shard(spec):
-    depth, k, n = spec
+    depth, k, n, pi = spec
+    prefix = PREFIXES[pi]
     acc = Acc()
     try:
         texts = compile_scripts()
@@ -239,12 +302,18 @@ def run_shard(spec):
             continue
         acc.n['evaluations'] += 1
         acc.n['validated'] += 1
+        hist = prefix + hist
         r = run_history(hist, texts)
+        if r[0] == 'disabled':
+            acc.n['evaluations'] -= 1
+            acc.n['validated'] -= 1
+            acc.n['disabled_histories'] += 1
+            continue
         if r[0] == 'unspecified':
             acc.skipped[r[1]] += 1
             continue
         if r[0] == 'violation':
-            acc.violation(r[1], (depth, idx), {'hist': list(hist)}, r[2], key=str(list(hist)))
+            acc.violation(r[1], (len(hist), pi, idx), {'hist': list(hist)}, r[2], key=str(list(hist)))
             continue
         _, states, steps, nontrivial = r
         acc.n['transitions'] += steps
